@@ -89,16 +89,17 @@ func wgNew(in *Interp, a []Val) Val {
 func wgAdd(in *Interp, a []Val) Val {
 	l := loc(a[0], "waitgroup.Add")
 	c := in.cell(l, "waitgroup.Add")
-	cur, ok := (*c).(VInt)
-	if !ok {
-		stuck("waitgroup.Add: not a wait group")
-	}
 	d := u64(a[1], "waitgroup.Add")
 	if s := csched.S; s != nil && csched.Active() {
 		s.Point(nil, "gl:waitgroup.Add")
 		st := in.lockOf(l)
 		st.vc = st.vc.Join(csched.CurVC())
 		csched.Tick()
+	}
+	// the read-modify-write is atomic (the library holds an internal lock)
+	cur, ok := (*c).(VInt)
+	if !ok {
+		stuck("waitgroup.Add: not a wait group")
 	}
 	*c = VInt{64, cur.N + d}
 	return VUnit{}
